@@ -20,6 +20,7 @@ import (
 	"fmt"
 	"reflect"
 	"sort"
+	"strconv"
 	"strings"
 )
 
@@ -31,6 +32,8 @@ const (
 )
 
 var allFormats = []string{fJSON, fXML, fGob, fText}
+
+var exactFormatName = map[string]bool{fJSON: true, fXML: true, fGob: true, fText: true}
 
 // exactFormat maps the five media types goa documents as supported to their body format.
 var exactFormat = map[string]string{
@@ -214,7 +217,12 @@ func refEncode(format string, v any) ([]byte, error) {
 			return nil, err
 		}
 	case fXML:
-		if err := xml.NewEncoder(&buf).Encode(v); err != nil {
+		if r, ok := v.(interface{ xmlRoot() string }); ok {
+			// harness-owned mirror of a goa type: written under the documented element name
+			if err := xml.NewEncoder(&buf).EncodeElement(v, xml.StartElement{Name: xml.Name{Local: r.xmlRoot()}}); err != nil {
+				return nil, err
+			}
+		} else if err := xml.NewEncoder(&buf).Encode(v); err != nil {
 			return nil, err
 		}
 	case fGob:
@@ -274,6 +282,10 @@ func refDecode(format string, body []byte, target any) (err error) {
 // canon renders v canonically: pointers are dereferenced, nil and empty slices / maps are the
 // same, map keys are sorted, byte slices are hex.
 func canon(v any) string {
+	if m, ok := v.(*errMirror); ok && m != nil { // same rendering as the generic path, without reflection
+		return "errMirror{Name=" + strconv.Quote(m.Name) + ",ID=" + strconv.Quote(m.ID) + ",Message=" + strconv.Quote(m.Message) +
+			",Temporary=" + strconv.FormatBool(m.Temporary) + ",Timeout=" + strconv.FormatBool(m.Timeout) + ",Fault=" + strconv.FormatBool(m.Fault) + "}"
+	}
 	var sb strings.Builder
 	canonValue(&sb, reflect.ValueOf(v))
 	return sb.String()
